@@ -139,6 +139,12 @@ func c14RunStreams(emit c14EmitFn) {
 				cd.items = append(cd.items, c14CitemT{count: strconv.Itoa(k + 1), addrs: []string{c14Hx(a), c14Hx(0x500021)}})
 			}
 			emit("maps-mainbinary", "doc", "count", cd.term(), []byte(c14JoinLines(cd.lines())), nil, false, true, fmt.Sprintf("mainbin:%d", i), fmt.Sprintf("segs:form%d", form))
+			if i < 7 && form < 2 {
+				// the same library listed AFTER the executable (addresses above it): the executable stays first
+				after := c14MapsecT{present: true, entries: []c14DmapT{mk(0x400000, "/bin/server"), mk(0x7f0000100000, first), mk(0x7f0000200000, "/lib/libother.so.2.0")}}
+				ca := c14CdocT{typ: "goroutine", total: "2", m: after, items: []c14CitemT{{count: "1", addrs: []string{c14Hx(0x7f0000100011), c14Hx(0x400021)}}, {count: "2", addrs: []string{c14Hx(0x7f0000200011)}}}}
+				emit("maps-mainbinary", "doc", "count", ca.term(), []byte(c14JoinLines(ca.lines())), nil, false, true, fmt.Sprintf("mainbin:%d", i), "mainbin:after")
+			}
 		}
 	}
 	// heap: effective sampling rate exactly 1 (heap/2, heap/3, heap_v2/1, heapz_v2/1) and 0/unknown (heap/1, heap_v2) with tiny
